@@ -169,6 +169,7 @@ def plan_C05(run):
     n = q(run, 1000, 30000)
     campaign(run, "rate-campaign", {"C05"}, lambda s, r: drivers.rate_campaign(s, r, n))
     run.require_classes(RATE_CLASSES, "rate-campaign")
+    campaign(run, "known-finding-witnesses", {"C05"}, lambda s, r: drivers.known_finding_witnesses(s))
     m = q(run, 250, 5000)
     campaign(run, "outcome-groups", {"C05"}, lambda s, r: drivers.outcome_groups(s, r, m))
     run.require_classes(["group:C05:draw", "group:C05:loss", "group:C05:swap"], "outcome-groups")
